@@ -44,6 +44,25 @@ def corpus(tier):
     out.append('#[derive(Educe)] #[educe(Into(u8), Into(u16), Into(u32))] struct Ty { a: i8, b: i8 }')
     out.append('#[derive(Educe)] #[educe(Into(u8))] struct Ty { #[educe(Into(u16), Into(u32), Into(u64))] a: u8, b: u8 }')
     out.append('#[derive(Educe)] #[educe(Into(u8), Into(u16))] enum Ty { A(#[educe(Into(u8), Into(u16))] u8, #[educe(Into(u16), Into(u8))] u8) }')
+    # requests with several independent offences at different positions: which one is reported must not depend on the seed
+    out.append('#[derive(Educe)] #[educe(Into(u8))] struct Ty { #[educe(Into(u16))] a: u8, #[educe(Into(u32))] b: u8, #[educe(Into(u64))] c: u8, #[educe(Into(i64))] d: u8 }')
+    out.append('#[derive(Educe)] #[educe(Into(u8))] enum Ty { A { #[educe(Into(u16))] a: u8, #[educe(Into(u32))] b: u8 }, B(#[educe(Into(u64))] u8, #[educe(Into(i8))] u8) }')
+    out.append('#[derive(Educe)] #[educe(PartialEq)] struct Ty { #[educe(Debug(ignore))] a: u8, #[educe(Hash(ignore))] b: u8, #[educe(Clone(method(m)))] c: u8, #[educe(Default = 1)] d: u8 }')
+    out.append('#[derive(Educe)] #[educe(PartialEq, PartialOrd)] struct Ty { #[educe(PartialOrd(rank = 1))] a: u8, #[educe(PartialOrd(rank = 1))] b: u8, #[educe(PartialOrd(rank = 2))] c: u8, #[educe(PartialOrd(rank = 2))] d: u8 }')
+    out.append('#[derive(Educe)] #[educe(Deref)] struct Ty { #[educe(Deref)] a: u8, #[educe(Deref)] b: u8, #[educe(Deref)] c: u8 }')
+    out.append('#[derive(Educe)] #[educe(Default)] enum Ty { #[educe(Default)] A, #[educe(Default)] B, #[educe(Default)] C(u8) }')
+    out.append('#[derive(Educe)] #[educe(Into(u8), Into(u16), Into(u32))] struct Ty { a: i8, b: i16, c: i32, d: i64 }')
+    out.append('#[derive(Educe)] #[educe(Debug, Nope, Clone, Nada, Hash, Zilch)] struct Ty { a: u8 }')
+    out.append('#[derive(Educe)] #[educe(Debug, Clone)] struct Ty { #[educe(Nope)] a: u8, #[educe(Nada)] b: u8, #[educe(Zilch)] c: u8 }')
+    # the same type under different levels of references / by value, in one process in both orders (anything remembered per type must tell them apart)
+    for t in ('u8', 'str', 'W'):
+        for lvl in ('{T}', "&'static {T}", "&'static &'static {T}", "&'static mut {T}", '&{T}'):
+            ty = lvl.replace('{T}', t)
+            if ty == 'str':
+                continue
+            out.append("#[derive(Educe)] #[educe(Into(%s))] struct Ty { level: %s, weight: u16 }" % (ty, ty.replace('&str', "&'static str").replace('&u8', "&'static u8").replace('&W', "&'static W")))
+            out.append("#[derive(Educe)] #[educe(Into(%s), Into(u16))] enum Ty { A { #[educe(Into(%s))] level: %s, weight: u16 }, B(u16, %s) }" % (
+                ty, ty, ty.replace('&str', "&'static str").replace('&u8', "&'static u8").replace('&W', "&'static W"), ty.replace('&str', "&'static str").replace('&u8', "&'static u8").replace('&W', "&'static W")))
     # every group / partner configuration, and merged groups (many traits -> the trait map has many keys)
     for sh in K.xshapes('small' if tier == 'quick' else 'full'):
         per = {}
@@ -98,11 +117,16 @@ def corpus(tier):
     return uniq
 
 
-def schedule(n):
-    """history: every input first / after every other input / immediately repeated"""
+def schedule(n, variant=0):
+    """history: every input first / after every other input / immediately repeated.  The processes do not all walk the corpus in the same
+    direction: variant 0 forwards then backwards, 1 backwards then forwards, 2 / 3 the same starting a third / two thirds into the corpus,
+    so that what a process has seen before it meets an input differs between processes as well"""
     fwd = list(range(n))
-    seq = fwd + fwd[::-1]
-    for i in fwd[::3]:
+    if variant in (2, 3):
+        k = (n * (variant - 1)) // 3
+        fwd = fwd[k:] + fwd[:k]
+    seq = fwd + fwd[::-1] if variant % 2 == 0 else fwd[::-1] + fwd
+    for i in list(range(n))[::3]:
         seq += [i, i]
     return seq
 
@@ -116,7 +140,8 @@ def check(v, tier):
     so = shim()
     inputs = corpus(tier)
     n = len(inputs)
-    seq = schedule(n)
+    seqs = [schedule(n, k) for k in range(4)]
+    seq = seqs[0]
     seeds = list(range(24 if tier == 'quick' else 96))
     canary_keys = ['u8,u16,u32', 'Debug,Clone,PartialEq,Hash'] * 4
 
@@ -124,17 +149,34 @@ def check(v, tier):
         env = dict(core.ENV)
         env['LD_PRELOAD'] = so
         env['VERIF_HASH_SEED'] = str(seed)
-        reqs = [('c%d' % k, 'h', ck) for k, ck in enumerate(canary_keys)] + [(str(k), 'x', inputs[i]) for k, i in enumerate(seq)]
+        sq = seqs[seed % 4]
+        reqs = [('c%d' % k, 'h', ck) for k, ck in enumerate(canary_keys)] + [(str(k), 'x', inputs[i]) for k, i in enumerate(sq)]
         res = xp.run_chunk(binary, reqs, env=env)
         return seed, [r['raw'] for r in res[:len(canary_keys)]], res[len(canary_keys):]
 
     # the shim must control the seed: same seed twice => same canary, different seeds => different orders
     a, b = run_seed(0), run_seed(0)
     guard(a[1] == b[1], 'seed shim: same seed gave different canary orders')
+    # the reference for every input is its expansion *alone in a fresh process*: whatever an expansion remembers cannot have influenced it
+    # (driver option --isolate: each request is served by a forked child of the still idle driver process; a sample is cross-checked against really separate processes)
+    def alone(chunk):
+        return [(i, fingerprint(r)) for i, r in zip(chunk, xp.run_chunk(binary, [(str(i), 'x', inputs[i]) for i in chunk], args=['--isolate']))]
+    chunks = [list(range(s, min(n, s + 64))) for s in range(0, n, 64)]
     ref = {}
+    with cf.ThreadPoolExecutor(max_workers=core.JOBS) as ex:
+        for part in ex.map(alone, chunks):
+            ref.update(part)
+    sample = list(range(0, n, max(1, n // 40)))
+    sep = {i: fingerprint(xp.run_chunk(binary, [('0', 'x', inputs[i])])[0]) for i in sample}
+    v.notes['fresh_process_references'] = n
+    v.notes['fresh_process_references_cross_checked_in_separate_processes'] = len(sample)
     bad = {}
+    for i in sample:
+        if sep[i] != ref[i]:
+            bad[i] = ('separate process', -1, sep[i])     # two fresh processes disagree: the expansion depends on more than its input
     for pos, (i, r) in enumerate(zip(seq, a[2])):
-        ref.setdefault(i, fingerprint(r))
+        if fingerprint(r) != ref[i] and i not in bad:
+            bad[i] = (0, pos, fingerprint(r))
     from .. import realmacro
     # the same inputs through the real macro inside rustc (another process, the compiler's own token backend, its own hash seed):
     # for this property a difference is not a harness problem but a violation — the expansion depends on something besides the input
@@ -166,7 +208,7 @@ def check(v, tier):
         for seed, canary, res in ex.map(run_seed, seeds):
             for k in range(len(canary_keys)):
                 orders[k % 2].add(canary[k])
-            for pos, (i, r) in enumerate(zip(seq, res)):
+            for pos, (i, r) in enumerate(zip(seqs[seed % 4], res)):
                 v.cov['evaluations'] += 1
                 fp = fingerprint(r)
                 if fp != ref[i] and i not in bad:
@@ -182,15 +224,15 @@ def check(v, tier):
     guard(len(orders[1]) >= (22 if tier == 'quick' else 24), 'the seeds explored produced only %d of 24 orders of a 4-key map' % len(orders[1]))
     for i, (seed, pos, fp) in sorted(bad.items()):
         case = Case('C16|%d|%s' % (i, inputs[i][:80].replace('\n', ' ')), inputs[i], {'input': inputs[i], 'seed': seed, 'history_position': pos}, run=False, depth=1)
-        v.violation(case, 'expansion differs from the reference (seed 0, first in the process) under schedule (seed=%s, position %s in the history):\n reference: %s\n observed:  %s'
+        v.violation(case, 'expansion differs from the reference (the input expanded alone in a fresh process) under schedule (seed=%s, position %s in the history):\n reference: %s\n observed:  %s'
                     % (seed, pos, str(ref[i])[:400], str(fp)[:400]))
     for t in inputs[::max(1, n // 5)][:5]:
         v.sample({'input': t})
     return v.finish('corpus: every declaration order of 2..4 Into targets on three shapes with field-level markers, refused multi-target requests, every trait-group '
                     'configuration and merged groups of 2/3/5/all groups on the catalogue shapes, inputs naming template identifiers, items with nine to twelve traits, enums differing only in their explicit discriminants; schedule: hash seed s in 0..S (LD_PRELOAD '
                     'getrandom shim, verified per run: same seed => same canary order; S grown until canary maps showed 6/6 and 24/24 (quick >= 22/24) iteration orders), one '
-                    'fresh process per seed, history = the whole corpus forwards, then backwards, then every third input twice in a row; oracle: status, canonical token '
-                    'string (item order included) and message identical to the reference (seed 0, first position); non-trivial = input expanding to >= 2 items',
+                    'fresh process per seed, history = the whole corpus forwards then backwards (seeds = 0 mod 4), backwards then forwards (1 mod 4), or the same starting one / two thirds into the corpus (2, 3 mod 4), then every third input twice in a row; oracle: the reference of every input is its expansion alone in a fresh process; status, canonical token '
+                    'string (item order included) and message identical to that reference at every position of every history; non-trivial = input expanding to >= 2 items',
                     {'bounds': {'seeds': len(seeds), 'tier': tier}})
 
 
